@@ -653,6 +653,11 @@ func (fc *FnCtx) checkUnmatched() {
 	}
 	for _, cs := range c.Calls {
 		if cs.Matched == 0 {
+			if cs.Ord == 0 && len(cs.Requires) == 0 && len(cs.Ensures) == 0 && !cs.Pure {
+				// "#*" with ghost updates only (a counter over all such calls):
+				// no such call is a legitimate count of zero
+				continue
+			}
 			fc.assertUnmatched(fmt.Sprintf("%s:call(%s)#%d.unmatched", fc.name, cs.Callee, cs.Ord), "call-site clause matches no call in the function")
 		}
 	}
